@@ -935,6 +935,8 @@ func init() {
 			emit(&c13Case{Part: "pipe", Expr: "shout(s)", Shape: "call", Want: "string:STR!"})
 			emit(&c13Case{Part: "pipe", Expr: "addn(n, 3)", Shape: "call", Want: "int:8"})
 			emit(&c13Case{Part: "pipe", Expr: "isbig(n)", Shape: "call", Want: "bool:true"})
+			emit(&c13Case{Part: "pipe", Expr: "f | small", Shape: "float-cut-off", Want: "int:1"})
+			emit(&c13Case{Part: "pipe", Expr: "fsmall | natural", Shape: "float-cut-off", Want: "int:0"})
 			emit(&c13Case{Part: "pipe", Expr: "n | . > 3 ? 'big' : 'small'", Shape: "pipe-dot-expr", Want: "string:big"})
 			emit(&c13Case{Part: "pipe", Expr: "n | double | . > 3", Shape: "pipe-dot-expr", Want: "bool:true"})
 			for _, e := range [][2]string{
@@ -995,6 +997,8 @@ func init() {
 				// a number that does not fit the parameter type cannot be converted either
 				{"big | small", "impossible-conversion", "small"}, {`"300" | small`, "impossible-conversion", "small"}, {"small(big)", "impossible-conversion-call", "small"},
 				{"minus | natural", "impossible-conversion", "natural"}, {`"-1" | natural`, "impossible-conversion", "natural"},
+				// ... nor a float whose whole part does not fit (2.7 is cut off to 2; 1500000.0 is no int8, -25000000.0 no uint)
+				{"fbig | small", "impossible-conversion", "small"}, {"fneg | natural", "impossible-conversion", "natural"}, {"small(fbig)", "impossible-conversion-call", "small"}, {"fneg | small", "impossible-conversion", "small"}, {"small(fbig) + 1", "impossible-conversion-in-operator-expression", "small"},
 				// the same failures with the call inside an operator expression
 				{"fail(s) + 'x'", "function-error-in-operator-expression", "fail"}, {"!fail(s)", "function-error-in-operator-expression", "fail"}, {"t && fail(s)", "function-error-in-operator-expression", "fail"},
 				{"double(s) > 1", "impossible-conversion-in-operator-expression", "double"}, {"addn(n) + 1", "wrong-arity-in-operator-expression", "addn"},
